@@ -157,7 +157,7 @@ func isFault(f string) bool {
 var (
 	sharedMvcc     mocktikv.MVCCStore
 	sharedOracle   oracle.Oracle
-	maxAttemptsCap = 400
+	maxAttemptsCap = 0 // 0: per case, sendBound + capSlack
 	caseTimeout    = 60 * time.Second
 )
 
@@ -211,6 +211,7 @@ type runner struct {
 	nBackoff  int
 	lastAtt   []int
 	unbounded bool
+	cap       int // hard attempt cap of this case
 
 	valCalls   int
 	valFailed  bool
@@ -357,7 +358,7 @@ func (c *scriptClient) SendRequest(ctx context.Context, addr string, req *tikvrp
 	if req.Type != cmdTypes[r.cfg.cmd] {
 		r.anomaly = append(r.anomaly, "cmd-type-changed")
 	}
-	if n >= maxAttemptsCap {
+	if n >= r.cap {
 		// "retries forever": stop the real loop by cancelling its context
 		r.unbounded = true
 		r.rpcs = append(r.rpcs, rec)
@@ -610,6 +611,10 @@ func (r *runner) run() (out outcome) {
 		out.impl = append(out.impl, impl)
 	}
 	r.lastTimes, r.lastMS = map[string]int{}, map[string]int{}
+	r.cap = maxAttemptsCap
+	if r.cap <= 0 {
+		r.cap = r.bound() + capSlack
+	}
 	r.live = map[uint64]int{}
 
 	r.cluster = mocktikv.NewCluster(sharedMvcc)
@@ -755,13 +760,7 @@ func (r *runner) run() (out outcome) {
 	nsend := len(r.rpcs)
 	total := r.bo.GetTotalSleep()
 	excluded := r.bo.GetBackoffSleepMS()["tikvServerBusy"]
-	hints := 0
-	for _, f := range r.script {
-		if f == "nl1" || f == "nl2" || f == "nl3" || f == "nlnext" {
-			hints++
-		}
-	}
-	bound := sendBound(len(r.storeIDs), hints)
+	bound := r.bound()
 
 	// 1. bounded attempts, no hang, no retry-forever-without-backoff
 	switch {
@@ -770,7 +769,7 @@ func (r *runner) run() (out outcome) {
 	case hang:
 		emit("prop bounded", fmt.Sprintf("FAIL hang sends=%d backoffs=%d", nsend, r.nBackoff))
 	case r.unbounded:
-		emit("prop bounded", fmt.Sprintf("FAIL unbounded sends>%d backoffs=%d totalSleep=%d", maxAttemptsCap, r.nBackoff, total))
+		emit("prop bounded", fmt.Sprintf("FAIL unbounded sends>%d backoffs=%d totalSleep=%d", r.cap, r.nBackoff, total))
 	case nsend > bound:
 		emit("prop bounded", fmt.Sprintf("FAIL sends=%d exceeds bound=%d", nsend, bound))
 	case len(r.anomaly) > 0:
@@ -899,6 +898,19 @@ func payloadOf(resp *tikvrpc.Response) string {
 
 // excludedLimit mirrors retry.isSleepExcluded[tikvServerBusy] (regenerated into the model by tools/facts).
 const excludedLimit = 600000
+
+// capSlack: how far beyond the explicit bound a call may go before it is stopped and reported as unbounded
+const capSlack = 25
+
+func (r *runner) bound() int {
+	hints := 0
+	for _, f := range r.script {
+		if f == "nl1" || f == "nl2" || f == "nl3" || f == "nlnext" {
+			hints++
+		}
+	}
+	return sendBound(3, hints)
+}
 
 // sendBound: the explicit bound of theorem attempts_bounded, evaluated on the implementation's own constant:
 // #replicas * maxReplicaAttempt + (leader-hint replies in the script, each may refill one exhausted replica once).
